@@ -339,7 +339,8 @@ Section Machine.
     | SJoinB h1 h2 k rcols =>
         match heap_get (s_heap st) h1, heap_get (s_heap st) h2 with
         | Some d1, Some d2 =>
-            if has_star (static_cols (d_leaf d1)) || has_star (static_cols (d_leaf d2))
+            (* the left frame's columns must be known to resolve the key; the right one is projected by name first *)
+            if has_star (static_cols (d_leaf d1))
             then (push st None 0, OErr)
             else
               let n1 := fresh (s_next st) in
